@@ -20,7 +20,7 @@ from simkit.world import sub_rng, HarnessError
 from . import builders as B
 
 ID = "C02"
-RULE = ("one world per seed: chain (7 models x uniform/fixed/geometric small grids) x sampling method (bst, huffman, "
+RULE = ("one world per seed: chain (7 models x uniform/fixed/geometric/probability-step small grids) x sampling method (bst, huffman, "
         "inversion, adapted1d; alias/table attempted: they raise under numpy 2 and are counted as probes), 40-120 "
         "operations (draw / batch / pickle round trip / deepcopy / fresh sampler) on up to 6 copies with uniforms from a "
         "14-value pool, optional small-memo knob, then a lattice sweep. non-trivial = >=1 snapshot operation followed by "
@@ -45,8 +45,9 @@ TIERS = {
 def generate(seed, tier="quick"):
     r = sub_rng(seed, "c02.scenario")
     model = r.choice(B.CHAIN_MODELS)
-    gk = r.choice(["uniform", "fixed", "geometric"])
+    gk = r.choice(["uniform", "fixed", "geometric", "probstep"])
     grid = {"uniform": {"kind": "uniform", "h": r.choice([0.05, 0.1, 0.08])},
+            "probstep": {"kind": "probstep", "h": r.choice([0.05, 0.1]), "pstep": r.choice([0.1, 0.2, 0.3])},
             "fixed": {"kind": "fixed", "h": r.choice([0.05, 0.1]), "n": r.choice([4, 6, 10, 16])},
             "geometric": {"kind": "geometric", "h": r.choice([0.05, 0.1]), "n": r.choice([2, 3, 5, 8])}}[gk]
     method = r.choice(["bst", "huffman", "inversion", "inversion", "adapted1d", "adapted1d", "alias", "table"])
